@@ -5,7 +5,12 @@ Driver for C13.  One case = one history on one runner:
 
   input : {"expire": ns, "calls": [{"c": cid, "payloads": [payload…]}, …], …}
   impl  : {"events": [{"t":"s","c":cid,"now":ns} | {"t":"d","c":cid,"now":ns,"batch":[payload…],"ok":bool,"res":[result…]}, …],
-           "rets":   [{"c":cid,"vals":[result…],"err":0|1|2,"cancelled":bool}, …]}
+           "rets":   [{"c":cid,"vals":[result…],"err":0|1|2,"cancelled":bool,"heldSame":bool,"held":[result…]}, …]}
+
+`vals` is the content of the returned slice right after the call returned; the caller keeps the
+slice, and `held` is its content at the end of the history (`heldSame`: unchanged).  Agreement with
+the model and the Spec predicate are evaluated on BOTH: a result set that is right when handed out
+but changes while the caller holds it (a later or concurrent call writing into it) is a violation.
 
 `events` are the runner's cache accesses in the order they happened (look-up loop of
 a call, aggregation of one batch), as logged by the harness at distinct virtual
@@ -42,14 +47,19 @@ structure RetIn where
   ret : Ret
   code : Nat
   cancelled : Bool   -- the caller's context was done when the call returned
+  held : List CheckResult   -- content of the returned slice at the end of the history
 
 def retIn (j : Json) : R RetIn := do
   let code ← natF j "err"
   let cancelled ← match fieldD j "cancelled" (.bool false) with
     | .bool b => pure b
     | _ => throw "cancelled: not a bool"
-  pure { cid := ← natF j "c", ret := { values := ← listF checkResult j "vals", err := code != 0 }, code := code,
-         cancelled := cancelled }
+  let vals ← listF checkResult j "vals"
+  let held ← match fieldD j "heldSame" (.bool true) with
+    | .bool true => pure vals
+    | _ => listOf checkResult (fieldD j "held" .null)
+  pure { cid := ← natF j "c", ret := { values := vals, err := code != 0 }, code := code,
+         cancelled := cancelled, held := held }
 
 structure St where
   cache : Cache := []
@@ -83,12 +93,26 @@ def callTags (c : Cache) (now : Nat) (ps : List Payload) (ds : List (List Payloa
   let ts := if ds.any (fun d => (d.2.res.getD []).any (fun r => r.pes != 0)) then addTag "pes-nonzero-result" ts else ts
   ts
 
+/-- position of the last `done` of call `cid` in `es` -/
+def lastDone (cid : Nat) (es : List Ev) : Option Nat :=
+  (es.foldl (fun (acc : Nat × Option Nat) e =>
+    (acc.1 + 1, match e with | .done c _ _ => if c == cid then some acc.1 else acc.2 | _ => acc.2)) (0, none)).2
+
+/-- largest number of other calls that start between a call's look-ups and its last batch -/
+def maxOverlap : List Ev → Nat
+  | [] => 0
+  | .start cid _ _ :: es =>
+    let here := match lastDone cid es with
+      | none => 0
+      | some l => ((es.take l).filter (fun e => match e with | .start _ _ _ => true | _ => false)).length
+    max here (maxOverlap es)
+  | _ :: es => maxOverlap es
+
 def interleaved : List Ev → Bool
   | [] => false
   | .start cid _ _ :: es =>
     -- another call starts or completes a batch before this call's last batch
-    let idxs := (List.range es.length).filter (fun i => match (es[i]? : Option Ev) with | some (Ev.done c _ _) => c == cid | _ => false)
-    (match idxs.getLast? with
+    (match lastDone cid es with
      | none => false
      | some l => (es.take l).any (fun e => match e with | .done c _ _ => c != cid | .start _ _ _ => true)) || interleaved es
   | _ :: es => interleaved es
@@ -136,6 +160,10 @@ def handle (input impl : Json) : R Reply := do
     | some m, some r =>
       if m.err != r.ret.err then some s!"call {cid}: model err={m.err} impl err code={r.code}"
       else if r.code == 2 then some s!"call {cid}: error other than ErrTooManyErrors"
+      else if r.held != r.ret.values then
+        let lost := mdiff r.ret.values r.held
+        let extra := mdiff r.held r.ret.values
+        some s!"call {cid}: the result slice the caller holds changed after the call returned: {r.ret.values.length} results then, {r.held.length} at the end of the history; {lost.length} of its results gone {(lost.take 2).map showResult}…, {extra.length} others in their place {(extra.take 2).map showResult}…"
       else if !(m.values.isPerm r.ret.values) then
         let lost := mdiff m.values r.ret.values
         let extra := mdiff r.ret.values m.values
@@ -146,7 +174,10 @@ def handle (input impl : Json) : R Reply := do
   let agree := bad.isEmpty
   let modelRets := st.rets.filterMap fun (cid, m) => m.map fun r => (cid, r, canc cid)
   let sm := specTrace evs modelRets
-  let si := specTrace evs implRets
+  let heldRets := rets.map fun r => (r.cid, ({ r.ret with values := r.held } : Ret), r.cancelled)
+  let siNow := specTrace evs implRets
+  let siHeld := specTrace evs heldRets
+  let si := siNow && siHeld
   let exact := st.rets.all fun (cid, m) => match m, rets.find? (fun r => r.cid == cid) with
     | some m, some r => m.values == r.ret.values
     | _, _ => false
@@ -154,12 +185,18 @@ def handle (input impl : Json) : R Reply := do
   let tags := if exact then addTag "same-order-as-model" tags else tags
   let tags := if interleaved evs then addTag "calls-interleaved" tags else tags
   let tags := if nStarts ≥ 2 then addTag "several-calls" tags else tags
+  let ov := maxOverlap evs
+  let tags := if ov ≥ 1024 then addTag "a-call-outlives>=1024-later-calls" tags
+              else if ov ≥ 100 then addTag "a-call-outlives>=100-later-calls" tags
+              else if ov ≥ 8 then addTag "a-call-outlives>=8-later-calls" tags else tags
+  let tags := if rets.any (fun r => r.held != r.ret.values) then addTag "retained-results-changed" tags else tags
   let tags := match fieldD input "instant" (.bool false) with
     | .bool true => addTag "instant-pipeline(batches complete concurrently)" tags
     | _ => tags
   pure { agree := agree, specModel := sm, specImpl := si,
          diff := if agree then "" else "; ".intercalate (bad.take 3),
-         fail := if si then "" else explainTrace evs implRets,
+         fail := if si then "" else if !siNow then explainTrace evs implRets
+                 else "retained result set (read again at the end of the history): " ++ explainTrace evs heldRets,
          nontrivial := st.nontriv, tags := tags.reverse }
 
 end AutoVerif.C13
